@@ -692,16 +692,8 @@ def features(h, impl):
     f = set()
     cfg = h['cfg']
     prev = []
-    subs = []                      # the generator's own picture of the subscriber list (only to measure the distribution)
     for op, a in zip(h['ops'], impl):
         k = op[0]
-        if k == 'A':
-            subs.append((op[1], op[2]))
-        elif k == 'D' and (op[1], op[2]) in subs:
-            subs.remove((op[1], op[2]))
-        for cb, ev, m_, x in a.get('raised', []):
-            if (ev, cb) in subs and any(e2 == ev for e2, _ in subs[subs.index((ev, cb)) + 1:]):
-                f.add('cb:subscriber-loop-truncated')
         if k == 'U':
             f.add('update')
             f.add('class:' + env().build(op[2])[3])
@@ -737,24 +729,6 @@ def features(h, impl):
                     f.add('stale-and-fresh-mixed')
         if k == 'P':
             f.add('pop:hit' if (a.get('ret') or a.get('raised')) else 'pop:miss')
-            if a.get('raised'):
-                f.add('cb:pop-with-raising-subscriber')
-        # ---- subscribers that raise
-        for cb, ev, m_, x in a.get('raised', []):
-            if ev == 'd' and x == 'KeyError':
-                f.add('cb:keyerror-swallowed')
-                if k in ('U', 'C'):
-                    f.add('cb:expiry-with-keyerror-subscriber')
-            f.add({'c': 'cb:created-subscriber-raises', 'u': 'cb:updated-subscriber-raises', 'd': 'cb:deleted-subscriber-raises'}[ev])
-        if a.get('from_cb'):
-            f.add('cb:exception-escaped')
-            if k in ('U', 'C') and any(ev == 'd' for _, ev, _, _ in a['raised']):
-                f.add('cb:cleanup-aborted')
-                if cfg['ttl_q'] is not None and any(op[1] - tr[1] >= cfg['ttl_q'] for tr in a['tracks'] if isinstance(tr[1], int)):
-                    f.add('cb:cleanup-aborted-leaving-expired')
-        if k in ('U', 'C') and a['exn'] is None and sum(1 for _, ev, _, x in a.get('raised', []) if ev == 'd') >= 1 \
-                and sum(1 for ev, _ in a['events'] if ev == 'd') >= 2:
-            f.add('cb:several-expired-one-raises')
         if k == 'C':
             f.add('cleanup')
         if k == 'L':
@@ -769,6 +743,53 @@ def features(h, impl):
             prev = a['tracks']
     if any(op[0] in ('A', 'D') and op[2] < 100 for op in h['ops']):
         f.add('broker-ops')
+    return f
+
+
+def cb_features(h, model):
+    """What the raising subscribers of this history do -- measured on the MODEL's run (the reference behaviour), so that
+    the generator self-check does not depend on how a changed implementation treats exceptions."""
+    f = set()
+    cfg = h['cfg']
+    rules = [tuple(r) for r in cfg.get('beh') or []]
+    if not rules:
+        return f
+
+    def behaviour(cb, ev, mmsi):
+        for c, e2, m, x in rules:
+            if c == cb and e2 == ev and (m is None or m == mmsi):
+                return x
+        return None
+    subs = []                      # the subscriber list, as register_callback / remove_callback build it
+    for op, b in zip(h['ops'], model):
+        k = op[0]
+        if k == 'A':
+            subs.append((op[1], op[2]))
+        elif k == 'D' and (op[1], op[2]) in subs:
+            subs.remove((op[1], op[2]))
+        if k not in ('U', 'C', 'P'):
+            continue
+        raised = [(cb, ev, tr[0], behaviour(cb, ev, tr[0])) for cb, ev, tr in b['deliv'] if behaviour(cb, ev, tr[0])]
+        escaped = b['exn'] is not None and bool(b['calls'])        # Props/C15.v C15_exception_origin
+        for cb, ev, m_, x in raised:
+            if (ev, cb) in subs and any(e2 == ev for e2, _ in subs[subs.index((ev, cb)) + 1:]):
+                f.add('cb:subscriber-loop-truncated')
+            if ev == 'd' and x == 'KeyError':
+                f.add('cb:keyerror-swallowed')
+                if k in ('U', 'C'):
+                    f.add('cb:expiry-with-keyerror-subscriber')
+            f.add({'c': 'cb:created-subscriber-raises', 'u': 'cb:updated-subscriber-raises', 'd': 'cb:deleted-subscriber-raises'}[ev])
+        if k == 'P' and raised:
+            f.add('cb:pop-with-raising-subscriber')
+        if escaped:
+            f.add('cb:exception-escaped')
+            if k in ('U', 'C') and any(ev == 'd' for _, ev, _, _ in raised):
+                f.add('cb:cleanup-aborted')
+                if cfg['ttl_q'] is not None and any(op[1] - tr[1] >= cfg['ttl_q'] for tr in b['tracks']):
+                    f.add('cb:cleanup-aborted-leaving-expired')
+        if k in ('U', 'C') and b['exn'] is None and any(ev == 'd' for _, ev, _, _ in raised) \
+                and sum(1 for ev, _ in b['calls'] if ev == 'd') >= 2:
+            f.add('cb:several-expired-one-raises')
     return f
 
 
@@ -822,6 +843,9 @@ def check_histories(ctx, prop, hs, queries_only_for=('C14',), sample_every=401, 
                                     f'different AISTracker object (created earlier in the same process) -- history: ' + short(h),
                               {'history': h, 'previous': a[-1].get('previous'), 'step': len(h['ops']) - 1, 'signature': fsig})
             model = parse_model(mr, h)
+            if want_features:
+                for ft in cb_features(h, model):
+                    rep.count(ft)
             diff = compare(h, a, model, with_cache=prop in ('C13', 'C14'))
             own = [b for b in bad if b[0] == prop]
             others = [b for b in bad if b[0] != prop]
